@@ -25,11 +25,11 @@ def write(pid, tier, seed, ob_rows, finding_rows, violations, harness_errors, no
         for w in (r.get('twin_witnesses') or [])[:2]:
             samples.append({'obligation': r['name'], 'kind': 'input reaching the assertion '
                             '(reachability twin)', 'call': w})
-        c = r.get('canary') or {}
-        if c.get('witness'):
-            samples.append({'obligation': r['name'],
-                            'kind': f"counterexample found on canary '{c['name']}'",
-                            'call': c['witness']})
+        for c in r.get('canaries') or []:
+            if c.get('witness'):
+                samples.append({'obligation': r['name'],
+                                'kind': f"counterexample found on canary '{c['name']}'",
+                                'call': c['witness']})
         for p in r.get('partitions', []):
             if p.get('cex'):
                 samples.append({'obligation': r['name'], 'kind': 'counterexample',
